@@ -110,6 +110,22 @@ pub fn faststr_deep(cx: &mut Ctx, a: &[u8]) {
                 if fa.ends_with(fb.substring_from(k)) || !fa.ends_with(fb.substring_from(k + 1)) { bad.push(format!("ends_with around position {}", k)); }
             }
         }
+        // --- two bytes changed in opposite directions: the first difference decides, not the later one and not a whole word
+        for k in 0..n {
+            for j in [1usize, 3, 7, 8] {
+                if k + j >= n { continue; }
+                for up in [true, false] {
+                    let mut b = a.to_vec();
+                    if up { b[k] = b[k].wrapping_add(1); b[k + j] = b[k + j].wrapping_sub(1); } else { b[k] = b[k].wrapping_sub(1); b[k + j] = b[k + j].wrapping_add(1); }
+                    let fb = FastStr::new(&b);
+                    let want = a.cmp(&b[..]);
+                    if fa.cmp(&fb) != want || fa.compare(fb) != want || fb.partial_cmp(&fa) != Some(want.reverse()) || fa == fb {
+                        bad.push(format!("ordering wrong: bytes {} and {} changed in opposite directions (got {:?}, unsigned byte order says {:?})", k, k + j, fa.cmp(&fb), want));
+                    }
+                    if fa.common_prefix_len(fb) != k { bad.push(format!("common_prefix_len with differences at {} and {}", k, k + j)); }
+                }
+            }
+        }
         // --- every prefix / suffix / cut point
         for k in 0..=n {
             let p = &a[..k];
@@ -366,6 +382,13 @@ pub fn zo_case(cx: &mut Ctx, strings: &[String], probes: &[String]) {
             let it: Vec<String> = z.iter().map(|s| s.to_string()).collect();
             if it != sorted { bad.push(format!("iter() enumerates {:?}, want {:?}", clip(&it), clip(&sorted))); }
             if z.iter().size_hint() != (n, Some(n)) { bad.push("size_hint".into()); }
+            // a partially consumed iterator knows how many strings remain; a clone answers like the original
+            let mut pit = z.iter();
+            for k in 0..n.min(3) { let _ = pit.next(); if pit.size_hint() != (n - k - 1, Some(n - k - 1)) || pit.len() != n - k - 1 { bad.push(format!("size_hint after {} strings: {:?}", k + 1, pit.size_hint())); } }
+            if pit.map(|s| s.to_string()).collect::<Vec<_>>() != sorted[n.min(3)..] { bad.push("rest of a partially consumed iterator".into()); }
+            let zc = z.clone();
+            if zc.len() != n || !zc.iter().eq(sorted.iter().map(|s| s.as_str())) { bad.push("clone enumerates differently".into()); }
+            for p in probes.iter() { if zc.binary_search(p) != z.binary_search(p) || zc.contains(p) != z.contains(p) { bad.push(format!("clone answers binary_search({:?}) differently", p)); } }
             for p in probes.iter().chain(sorted.iter().take(20)) {
                 check_search("ZoSortedStrVec", &sorted, p, z.binary_search(p), true, &mut bad);
                 if z.contains(p) != sorted.iter().any(|s| s == p) { bad.push(format!("contains({:?})", p)); }
@@ -373,6 +396,8 @@ pub fn zo_case(cx: &mut Ctx, strings: &[String], probes: &[String]) {
             for lo in probes.iter() { for hi in probes.iter() {
                 let want: Vec<&str> = sorted.iter().map(|s| s.as_str()).filter(|s| *s >= lo.as_str() && *s < hi.as_str()).collect();
                 let got: Vec<&str> = z.range(lo, hi).collect();
+                let rg = z.range(lo, hi);
+                if rg.size_hint() != (want.len(), Some(want.len())) || rg.len() != want.len() { bad.push(format!("range({:?}, {:?}).size_hint() = {:?}, {} strings in the range", lo, hi, rg.size_hint(), want.len())); }
                 if got != want { bad.push(format!("range({:?}, {:?}) enumerates {:?}, want {:?}", lo, hi, got.iter().take(12).collect::<Vec<_>>(), want.iter().take(12).collect::<Vec<_>>())); }
             } }
         }
@@ -532,15 +557,18 @@ pub fn lines_cfg_case(cx: &mut Ctx, text: &str, cfgbits: u64, batch: usize, deli
 // ---------------------------------------------------------------- lexicographic iterator: operation histories for the model
 /// ops: (code, target) with 0 next, 1 prev, 2 seek_start, 3 seek_end, 4 seek_lower_bound, 5 seek_upper_bound.
 /// Emits a Coq case (return value and current() after every operation); the oracle part checks only what the trait documents.
-pub fn lex_ops_case(cx: &mut Ctx, strings: &[String], ops: &[(u8, String)]) {
+pub fn lex_ops_case(cx: &mut Ctx, strings: &[String], ops: &[(u8, String)], via: u64) {
     let cell = "SortedVecLexIterator";
     cx.sum.eval(cell, &format!("lexops {:?} {:?}", strings, ops), strings.len() >= 2 && ops.len() >= 2);
-    let cj = json!({"cell": "lexops", "strings": strings, "ops": ops.iter().map(|(c, t)| json!([c, t])).collect::<Vec<_>>()});
+    let cj = json!({"cell": "lexops", "strings": strings, "ops": ops.iter().map(|(c, t)| json!([c, t])).collect::<Vec<_>>(), "via": via});
     if strings.windows(2).any(|w| w[0] > w[1]) { return; }
     let r = guarded(|| {
         let mut bad: Vec<String> = vec![];
         let mut obs: Vec<(bool, Option<String>)> = vec![];
-        let mut it = SortedVecLexIterator::new(strings);
+        // via: 0 = SortedVecLexIterator::new, otherwise through LexIteratorBuilder (default / with options)
+        let mut it = super::wide::lex_iter_via(via, strings);
+        if it.size_hint() != Some(strings.len()) { bad.push("size_hint".into()); }
+        if it.is_at_start() != !strings.is_empty() || it.current().map(|s| s.to_string()).as_ref() != strings.first() { bad.push("a new iterator is not at the first string".into()); }
         for (code, t) in ops {
             let before = it.current().map(|s| s.to_string());
             let ret = match code { 0 => it.next(), 1 => it.prev(), 2 => it.seek_start(), 3 => it.seek_end(), 4 => it.seek_lower_bound(t), _ => it.seek_upper_bound(t) };
@@ -562,6 +590,10 @@ pub fn lex_ops_case(cx: &mut Ctx, strings: &[String], ops: &[(u8, String)]) {
                 }
             }
             if it.is_at_end() != cur.is_none() { bad.push("is_at_end".into()); }
+            // is_at_start: true after seek_start on a non-empty list, never on a string different from the first, never after a successful next()
+            if it.is_at_start() && cur.as_ref() != strings.first() { bad.push(format!("is_at_start() at {:?}", cur)); }
+            if (*code == 2 && !strings.is_empty() && !it.is_at_start()) || (*code == 0 && ret && it.is_at_start()) { bad.push(format!("is_at_start() = {} after op {}", it.is_at_start(), code)); }
+            if it.size_hint() != Some(strings.len()) { bad.push("size_hint".into()); }
             obs.push((ret, cur));
         }
         (bad, obs)
